@@ -29,7 +29,7 @@ class Boom(Exception):
 try:
     _EG = ExceptionGroup            # noqa: F821  (builtin on 3.11+)
 except NameError:
-    _EG = _extract_mod.ExceptionGroup
+    from exceptiongroup import ExceptionGroup as _EG      # what stackscope itself imports before 3.11
 
 
 class BoomGroup(_EG):
